@@ -40,6 +40,8 @@ type C14Case struct {
 	// Repeat > 1: the SAMLRequest parameter occurs that many times, every occurrence spelled differently (base64 line breaks at
 	// different places) and every one inflating to SizeMiB: what a request may make the IdP inflate is bounded, not what one value may.
 	Repeat int `json:"repeat,omitempty"`
+	// Simultaneous > 1: that many oversized messages (one per inflating endpoint, in turn) are served at the same moment
+	Simultaneous int `json:"simultaneous,omitempty"`
 }
 
 var (
@@ -224,6 +226,9 @@ const c14AllocLimit = 160 << 20
 const c14AcceptLimitMiB = 32
 
 func c14Run(c C14Case) (vs []*ev.Violation, alloc uint64, compressed int, accepted bool) {
+	if c.Simultaneous > 1 {
+		return c14RunConcurrent(c, nil), 0, 0, false
+	}
 	spec := stdSpec()
 	now := time.Now()
 	payload := c14Payload(c, spec, now)
@@ -385,3 +390,85 @@ func TestC14Ladder(t *testing.T) {
 	})
 }
 
+
+// TestC14Concurrent: the bound holds per request also when requests arrive together - four oversized messages on four inflating
+// endpoints released from one barrier, three rounds. The allocation of the whole round must stay below four times the
+// single-request limit; nobody may be accepted.
+func TestC14Concurrent(t *testing.T) {
+	col := ev.For("C14", "exploration", c14Rule)
+	runPlain(t, col, "TestC14", func(fail func(*ev.Violation, any)) {
+		c := C14Case{Endpoint: "four-endpoints", SizeMiB: 128, Placement: "comment", Pad: "A", Valid: true, Best: true, Simultaneous: 4}
+		for _, v := range c14RunConcurrent(c, col) {
+			fail(v, c)
+		}
+	})
+}
+
+// c14RunConcurrent serves c.Simultaneous oversized messages (one per inflating endpoint, in turn) released from one barrier,
+// three rounds on one provider.
+func c14RunConcurrent(c C14Case, col *ev.Collector) (vs []*ev.Violation) {
+	spec := stdSpec()
+	now := time.Now()
+	eps := []C14Case{
+		{Endpoint: "sso-query", SizeMiB: c.SizeMiB, Placement: "comment", Pad: "A", Valid: true, Best: true},
+		{Endpoint: "sso-form", SizeMiB: c.SizeMiB, Placement: "after-root", Pad: "A", Valid: true, Best: true},
+		{Endpoint: "slo-query", SizeMiB: c.SizeMiB, Placement: "comment", Pad: "A", Valid: true, Best: true},
+		{Endpoint: "slo-form", SizeMiB: c.SizeMiB, Placement: "text", Pad: "A", Valid: true, Best: true},
+	}
+	var reqs []obs.HTTPReq
+	for i := 0; i < c.Simultaneous; i++ {
+		e := eps[i%len(eps)]
+		msg := qesc(base64.StdEncoding.EncodeToString(c14Payload(e, spec, now)))
+		route := spec.IdP.Route("sso")
+		if strings.HasPrefix(e.Endpoint, "slo") {
+			route = spec.IdP.Route("slo")
+		}
+		if strings.HasSuffix(e.Endpoint, "query") {
+			reqs = append(reqs, obs.HTTPReq{Method: "GET", Path: route, RawQuery: "SAMLRequest=" + msg + "&RelayState=rs"})
+		} else {
+			reqs = append(reqs, obs.HTTPReq{Method: "POST", Path: route, ContentType: "application/x-www-form-urlencoded", Body: "SAMLRequest=" + msg + "&RelayState=rs&SAMLEncoding=" + qesc(spsim.EncodingDeflate)})
+		}
+	}
+	w := mustBuild(spec)
+	for round := 0; round < 3; round++ {
+		runtime.GC()
+		var m0, m1 runtime.MemStats
+		runtime.ReadMemStats(&m0)
+		start := make(chan struct{})
+		var wg sync.WaitGroup
+		reps := make([]obs.Reply, len(reqs))
+		for i := range reqs {
+			wg.Add(1)
+			go func(i int) {
+				defer wg.Done()
+				<-start
+				reps[i] = obs.Do(w.Handler, reqs[i])
+			}(i)
+		}
+		close(start)
+		wg.Wait()
+		runtime.ReadMemStats(&m1)
+		alloc := m1.TotalAlloc - m0.TotalAlloc
+		okCalls, _ := createCalls(w)
+		if col != nil {
+			col.Case(true, ev.Fingerprint("concurrent", round), []string{"concurrent-round"}, func() any {
+				return map[string]any{"simultaneous_requests": len(reqs), "inflated_mib_each": c.SizeMiB, "allocated_mib_round": alloc >> 20, "accepted": len(okCalls)}
+			})
+		}
+		if alloc > uint64(len(reqs))*c14AllocLimit {
+			vs = append(vs, ev.V("C14/allocation-proportional-to-inflated-size", "%d simultaneous requests inflating to %d MiB each: %d MiB allocated in the round (limit %d x %d MiB)", len(reqs), c.SizeMiB, alloc>>20, len(reqs), c14AllocLimit>>20))
+		}
+		if len(okCalls) > 0 && c.SizeMiB >= c14AcceptLimitMiB {
+			vs = append(vs, ev.V("C14/oversized-request-accepted", "one of %d simultaneous %d MiB requests was accepted", len(reqs), c.SizeMiB))
+		}
+		for _, rep := range reps {
+			if rep.Panic != "" {
+				vs = append(vs, ev.V("C14/panic", "handler panicked: %s", short(rep.Panic, 100)))
+			}
+		}
+		if len(vs) > 0 {
+			return vs
+		}
+	}
+	return nil
+}
